@@ -8,13 +8,13 @@ Oracle: a plain Python list of rows (vf-local, no jesse code).  Two generators:
 """
 import itertools
 
-RULE = ("operation histories over {append, append_multiple(k), delete(i), flush, setitem(i), setslice(a,b), "
+RULE = ("operation histories over {append, append_multiple(k), append(arr[i]) / append_multiple(arr[a:b]) (rows read from the array itself), delete(i), flush, setitem(i), setslice(a,b), "
         "get_last_item, get_past_item} interpreted against a Python-list model; after the checked operations "
         "len(), every index -n-1..n, and every slice [a:b] with a,b in {None,-n-2..n+2} (all of them when n<=6, a "
         "sample otherwise) are compared with the model. (a) exhaustive over all sequences up to the length bound "
         "for bucket sizes 2,3; (b) Hypothesis lists of up to 200 operations. distinct = digest of (config, op list); "
         "non-trivial = the history appends across a bucket boundary after a delete, or assigns/reads through a "
-        "negative slice bound on a non-empty array, or drops rows (drop_at).")
+        "negative slice bound on a non-empty array, or drops rows (drop_at), or appends rows read from the array itself.")
 ASSUMPTIONS = [
     "delete(i) is only generated with a valid non-negative index (the callers pass indices from np.where)",
     "slice step is always None (contiguous slicing, as stated)",
@@ -149,6 +149,28 @@ class Runner:
                 m.extend(rows)
                 self._boundary(before, k)
                 self.rebase_after_drop(k)
+            elif kind == 'append_own':
+                # l.append(l[i]): the appended item is whatever indexing returns (a view into the array's own storage)
+                i = op[1]
+                if not (-n <= i < n):
+                    return False
+                before = n
+                arr.append(arr[i])
+                m.append(list(m[i]))
+                self.flags.add('append-of-own-row')
+                self._boundary(before, 1)
+                self.rebase_after_drop(1)
+            elif kind == 'appendm_own':
+                a, b = op[1], op[2]
+                rows = [list(r) for r in m[a:b]]
+                if not rows:
+                    return False
+                before = n
+                arr.append_multiple(arr[a:b])
+                m.extend(rows)
+                self.flags.add('append-of-own-row')
+                self._boundary(before, len(rows))
+                self.rebase_after_drop(len(rows))
             elif kind == 'delete':
                 i = op[1]
                 if not (0 <= i < n):
@@ -231,7 +253,11 @@ ALPHABET = ([('append',)] + [('appendm', k) for k in (1, 2, 3, 4)] + [('delete',
             + [('setslice', a, b) for a, b in ((None, None), (None, 2), (0, None), (1, None), (-1, None), (-2, None), (-2, -1), (0, 1), (1, 3), (None, -1))])
 
 
-def exhaustive(acc, shard, nshards, maxlen, buckets=(2, 3)):
+CAPACITY_ALPHABET = [('append',), ('appendm', 1), ('appendm', 2), ('appendm', 3), ('delete', 0), ('delete', 1), ('flush',)]
+
+
+def exhaustive(acc, shard, nshards, maxlen, buckets=(2, 3), alphabet=None, name='exhaustive'):
+    ALPHABET = alphabet or globals()['ALPHABET']
     space = 0
     for bucket in buckets:
         cfg = dict(bucket=bucket, width=1, drop_at=None)
@@ -245,17 +271,19 @@ def exhaustive(acc, shard, nshards, maxlen, buckets=(2, 3)):
                     acc.exclude('exhaustive: sequence invalid on the list model')
                     continue
                 nt = bool(r.flags & {'bucket-cross-after-delete', 'neg-slice-write'})
-                acc.case(key=('ex', bucket, seq) if nt else None, nontrivial=nt, classes=['exh:' + f for f in r.flags],
-                         sample=dict(cfg=cfg, ops=seq) if (nt and idx % 5000 == shard) else None, sub=f'exhaustive-len<={maxlen}')
+                acc.case(key=(name, bucket, seq) if nt else None, nontrivial=nt, classes=['exh:' + f for f in r.flags],
+                         sample=dict(cfg=cfg, ops=seq) if (nt and idx % 5000 == shard) else None, sub=f'{name}-len<={maxlen}')
                 for sig, msg in vios:
                     acc.violation(sig, msg, dict(cfg=cfg, ops=seq, read_every=False), size=L * 1000 + len(str(seq)))
-    acc.mark_exhaustive(f'exhaustive-len<={maxlen}', f'all {len(ALPHABET)}^L sequences, L=1..{maxlen}, bucket in {list(buckets)} (this shard: 1/{nshards}); total sequences enumerated over all shards = {space}')
+    acc.mark_exhaustive(f'{name}-len<={maxlen}', f'all {len(ALPHABET)}^L sequences, L=1..{maxlen}, bucket in {list(buckets)} (this shard: 1/{nshards}); total sequences enumerated over all shards = {space}')
 
 
 def run_shard(acc, shard, nshards, seed, tier):
     from hypothesis import strategies as st
     from vf import runner
     exhaustive(acc, shard, nshards, maxlen=4 if tier == 'quick' else 5)
+    # growth / shrink interplay needs longer histories than the full alphabet allows: a 7-letter capacity alphabet, buckets 1..3
+    exhaustive(acc, shard, nshards, maxlen=6 if tier == 'quick' else 7, buckets=(1, 2, 3), alphabet=CAPACITY_ALPHABET, name='exhaustive-capacity')
 
     idx = st.integers(-14, 14)
     bound = st.one_of(st.none(), st.integers(-14, 14))
@@ -263,6 +291,8 @@ def run_shard(acc, shard, nshards, seed, tier):
         st.just(('append',)), st.just(('append',)),
         st.tuples(st.just('appendm'), st.integers(1, 14)),
         st.tuples(st.just('delete'), st.integers(0, 12)),
+        st.tuples(st.just('append_own'), st.sampled_from([0, -1, -1, 1, -2, 3, -5])),
+        st.tuples(st.just('appendm_own'), bound, bound),
         st.tuples(st.just('set'), idx),
         st.tuples(st.just('setslice'), bound, bound),
         st.just(('flush',)),
@@ -286,7 +316,7 @@ def run_shard(acc, shard, nshards, seed, tier):
             r.check_reads(full=len(r.model) <= 6)
             if r.vios:
                 break
-        nt = bool(r.flags & {'bucket-cross-after-delete', 'neg-slice-write', 'dropped'}) or ('neg-slice-read' in r.flags and len(done) > 3)
+        nt = bool(r.flags & {'bucket-cross-after-delete', 'neg-slice-write', 'dropped', 'append-of-own-row'}) or ('neg-slice-read' in r.flags and len(done) > 3)
         case_desc = dict(cfg=cfg, ops=done, read_every=True)
         return dict(key=('hyp', cfg, done), nontrivial=nt, classes=sorted(r.flags) + (['drop_at'] if cfg.get('drop_at') else []),
                     sample=case_desc if len(done) < 12 else None, violations=r.vios, sub='hypothesis-op-lists', _desc=case_desc)
